@@ -18,23 +18,43 @@ theorem runPassDir_within_bound (p : PassT) (hL : 1 ≤ p.maxLoop) (c : Ctx) (fu
   · cases e; rfl
   · simp only [] at e
     split at e
-    · exact runPass_within_bound p hL (c.withSeg (c.seg.reverseSlots (isMark c c.seg))) fuel (reverse_wf h _) e
-    · exact runPass_within_bound p hL c fuel h e
+    · cases e
+    · split at e
+      · cases e
+      · split at e
+        · cases e; rfl
+        · split at e
+          · exact runPass_within_bound p hL (c.withSeg (c.seg.reverseSlots (isMark c c.seg))) fuel (reverse_wf h _) e
+          · exact runPass_within_bound p hL c fuel h e
+
+/-- where an error of the engine model can come from: a rule application (the matcher, a constraint, an action) or a pass constraint -/
+def EngineError (w : String) : Prop :=
+  (∃ p c s, findNDoRule p c s = .error w) ∨ (∃ p c s, testPassConstraint p c s = .error w)
 
 theorem runPassDir_error (p : PassT) (hL : 1 ≤ p.maxLoop) (c : Ctx) (fuel : Nat) (h : WF c.seg) {w : String}
-    (e : runPassDir p c fuel = .error w) : ∃ c s, findNDoRule p c s = .error w := by
+    (e : runPassDir p c fuel = .error w) : EngineError w := by
   unfold runPassDir at e
   split at e
   · cases e
   · simp only [] at e
     split at e
-    · exact runPass_error p hL (c.withSeg (c.seg.reverseSlots (isMark c c.seg))) fuel (reverse_wf h _) e
-    · exact runPass_error p hL c fuel h e
+    · rename_i hpc
+      cases e
+      exact Or.inr ⟨p, c, _, hpc⟩
+    · split at e
+      · cases e
+      · split at e
+        · cases e
+        · split at e
+          · obtain ⟨c', s', hh⟩ := runPass_error p hL (c.withSeg (c.seg.reverseSlots (isMark c c.seg))) fuel (reverse_wf h _) e
+            exact Or.inl ⟨p, c', s', hh⟩
+          · obtain ⟨c', s', hh⟩ := runPass_error p hL c fuel h e
+            exact Or.inl ⟨p, c', s', hh⟩
 
 theorem runRange_fold (passes : Array PassT) (lo fuel : Nat) (limit : Int) (b : Bool) :
     ∀ (ks : List Nat), (∀ k ∈ ks, 1 ≤ (passes.getD (lo + k) default).maxLoop) →
     ∀ (acc : Except String (Option Ctx)),
-      ((∀ x, acc = .ok (some x) → WF x.seg ∧ x.vExceeded = b) ∧ (∀ w, acc = .error w → ∃ p c s, findNDoRule p c s = .error w)) →
+      ((∀ x, acc = .ok (some x) → WF x.seg ∧ x.vExceeded = b) ∧ (∀ w, acc = .error w → EngineError w)) →
       let r := ks.foldl (fun (acc : Except String (Option Ctx)) k =>
         match acc with
         | .ok (some c1) =>
@@ -42,7 +62,7 @@ theorem runRange_fold (passes : Array PassT) (lo fuel : Nat) (limit : Int) (b : 
            | .ok (some c2) => if c2.seg.numGlyphs > 0 ∧ c2.seg.numGlyphs > limit then .ok none else .ok (some c2)
            | o => o)
         | o => o) acc
-      (∀ x, r = .ok (some x) → WF x.seg ∧ x.vExceeded = b) ∧ (∀ w, r = .error w → ∃ p c s, findNDoRule p c s = .error w) := by
+      (∀ x, r = .ok (some x) → WF x.seg ∧ x.vExceeded = b) ∧ (∀ w, r = .error w → EngineError w) := by
   intro ks
   induction ks with
   | nil => intro _ acc ha; exact ha
@@ -73,8 +93,7 @@ theorem runRange_fold (passes : Array PassT) (lo fuel : Nat) (limit : Int) (b : 
         split at hw
         · split at hw <;> cases hw
         · rename_i o hno
-          obtain ⟨c', s', hh⟩ := runPassDir_error _ hLk c1 fuel w1 hw
-          exact ⟨_, c', s', hh⟩
+          exact runPassDir_error _ hLk c1 fuel w1 hw
       · exact ha.2 w hw
 
 theorem beginRange_wf {c : Ctx} (h : WF c.seg) (limit : Int) : WF (c.beginRange limit).seg := h
@@ -82,7 +101,7 @@ theorem beginRange_wf {c : Ctx} (h : WF c.seg) (limit : Int) : WF (c.beginRange 
 /-- **C02, a run of passes**: the loop report never says "exceeded", and an error is a rule application's -/
 theorem runRange_within_bound (passes : Array PassT) (c : Ctx) (lo hi fuel : Nat) (h : WF c.seg) (hL : LimitsOK passes lo hi) :
     (∀ c', runRange passes c lo hi fuel = .ok (some c') → c'.vExceeded = c.vExceeded) ∧
-    (∀ w, runRange passes c lo hi fuel = .error w → ∃ p c s, findNDoRule p c s = .error w) := by
+    (∀ w, runRange passes c lo hi fuel = .error w → EngineError w) := by
   unfold runRange
   simp only []
   have := runRange_fold passes lo fuel (c.seg.numGlyphs * 64) c.vExceeded (List.range (hi - lo))
@@ -125,7 +144,7 @@ theorem shape_within_bound (font : Font) (text : List Nat) (fuel : Nat) (dir : N
 theorem shape_error (font : Font) (text : List Nat) (fuel : Nat) (dir : Nat) (hi : font.ipos ≤ font.passes.size)
     (hL : ∀ k, k < font.passes.size → 1 ≤ (font.passes.getD k default).maxLoop) {w : String}
     (e : shape font text fuel dir = .error w) :
-    (∃ p c s, findNDoRule p c s = .error w) ∨ w = "associateChars: char-info access out of range" := by
+    (EngineError w) ∨ w = "associateChars: char-info access out of range" := by
   have hL1 : LimitsOK font.passes 0 font.ipos := fun k hk => hL _ (by omega)
   have hL2 : LimitsOK font.passes font.ipos font.passes.size := fun k hk => hL _ (by omega)
   unfold shape at e
